@@ -384,6 +384,10 @@ def case_letter(rng, ctx):
         ctx.log("codes", "list" if as_list else dt, vals)
         ctx.op("letter_decode_" + ("list" if as_list else dt))
         obj = list(vals) if as_list else np.array(vals, dtype=dt)
+        if not as_list and rng.random() < 0.25:
+            # the same codes as a list / tuple of NumPy scalars (what iterating over a code array yields)
+            ctx.op("letter_decode_scalar_seq")
+            obj = (list if rng.random() < 0.5 else tuple)(np.dtype(dt).type(v) for v in vals)
         if all(0 <= v < n for v in vals):
             got = alph.decode_multiple(obj)
             ctx.check(got.tolist() == [syms[v] for v in vals], "roundtrip_letter",
